@@ -95,6 +95,8 @@ type recorder struct {
 	trace   []entry
 	nFall   int          // fallible calls so far
 	faults  map[int]bool // indices (0-based, in order of fallible calls) that fail
+	tfaults map[int]map[int]bool // per request (C08): request -> indices of its own fallible calls that fail
+	tnFall  map[int]int
 	newIDs  int
 	held    map[string]int
 	panicky bool
@@ -103,6 +105,11 @@ type recorder struct {
 }
 
 func (r *recorder) fail() bool {
+	if r.tfaults != nil { // concurrent requests: the n-th fallible call of one request fails, whatever the others do meanwhile
+		i := r.tnFall[r.tid]
+		r.tnFall[r.tid]++
+		return r.tfaults[r.tid][i]
+	}
 	i := r.nFall
 	r.nFall++
 	return r.faults[i]
